@@ -212,3 +212,8 @@ func SolutionOK(rows *Rows, sol *Solution, witness []*big.Int, mod *big.Int) err
 	}
 	return nil
 }
+
+// WitnessValues converts a witness vector (public without ONE, then secret) of any field to big.Int.
+func WitnessValues(vec any) []*big.Int {
+	return vecToBig(reflect.ValueOf(vec))
+}
